@@ -75,10 +75,12 @@ func (c *cancelAt) Done() <-chan struct{} {
 	return c.Context.Done()
 }
 
-func (c *cancelAt) cancelNow() {
+func (c *cancelAt) cancelNow() bool {
 	if atomic.CompareAndSwapInt64(&c.at, 0, atomic.LoadInt64(&c.n)+1) {
 		c.cancel()
+		return true
 	}
+	return false
 }
 
 type program struct {
@@ -183,6 +185,18 @@ return %d`, 1+p%9, p%7)
 	{"cancel-inside-coroutine", 1, func(p int) string {
 		return fmt.Sprintf("local co = coroutine.wrap(function()\n  local i = 0\n  while true do\n    i = i + 1\n    emit('co', i)\n    if i == %d then cancel() end\n    if i %% 3 == 0 then coroutine.yield(i) end\n  end\nend)\nwhile true do emit('main', co()) end", 1+p%9)
 	}, false},
+	{"host-cancel-then-stores", 0, func(p int) string {
+		return fmt.Sprintf("T = {}\nlocal up = 0\nlocal function peek() return up end\nlocal i = 0\nwhile true do\n  i = i + 1\n  emit('i', i)\n  if i == %d then cancel(); AFTER = i; T.hit = i; T[1] = 'x' .. i; up = i end\nend", 1+p%9)
+	}, false},
+	{"host-cancel-then-stores-in-pcall", 1, func(p int) string {
+		return fmt.Sprintf("T = {}\nlocal i = 0\nwhile true do\n  i = i + 1\n  emit('i', i)\n  pcall(function() if i == %d then cancel(); T.hit = i; AFTER = i end end)\nend", 1+p%9)
+	}, false},
+	{"host-cancel-then-stores-in-coroutine", 1, func(p int) string {
+		return fmt.Sprintf("T = {}\nlocal co = coroutine.wrap(function()\n  local i = 0\n  while true do\n    i = i + 1\n    emit('co', i)\n    if i == %d then cancel(); T[1] = i; AFTER = i end\n    if i %% 3 == 0 then coroutine.yield(i) end\n  end\nend)\nwhile true do emit('main', co()) end", 1+p%9)
+	}, false},
+	{"host-cancel-then-stores-in-metamethod", 1, func(p int) string {
+		return fmt.Sprintf("T = {}\nlocal o = setmetatable({}, {__index = function(t, k) if k == %d then cancel(); AFTER = k; T.hit = k end return k end})\nlocal i = 0\nwhile true do i = i + 1 emit('v', o[i]) end", 1+p%9)
+	}, false},
 	{"cancel-inside-coroutine-pcall", 2, func(p int) string {
 		return fmt.Sprintf("local co = coroutine.create(function()\n  local i = 0\n  while true do\n    pcall(function() while true do i = i + 1 emit('co', i) if i == %d then cancel() end end end)\n    emit('swallowed')\n  end\nend)\nwhile true do emit('main', coroutine.resume(co)) end", 2+p%7)
 	}, false},
@@ -208,6 +222,8 @@ type runResult struct {
 	ret         string
 	probeBad    string // first after-cancel probe that completed Lua code
 	probes      int
+	afterEffect string // a store placed directly behind the script's own cancel() call took effect
+	hostCancel  bool   // the script's cancel() call is what ended the context
 }
 
 // tiny functions whose first (often only) instruction is observable: a
@@ -290,9 +306,12 @@ func runOnce(src string, k int, useCtx bool, opt ...string) *runResult {
 		}
 		return 0
 	}))
+	hostCancelled := false
 	L.SetGlobal("cancel", L.NewFunction(func(L *lua.LState) int {
 		if ctx != nil {
-			ctx.cancelNow()
+			if ctx.cancelNow() {
+				hostCancelled = true
+			}
 		}
 		return 0
 	}))
@@ -330,6 +349,21 @@ func runOnce(src string, k int, useCtx bool, opt ...string) *runResult {
 			}
 		} else {
 			res.ret = gl.Canon(L.Get(-1), gl.NewIDMap())
+		}
+	}
+	if ctx != nil && ctx.Context.Err() != nil && o.GoPanic == nil {
+		// programs that end the context themselves (host function cancel()) put plain stores - no call, no
+		// branch - right behind that call: the call instruction was under way when the context became done,
+		// the instructions behind it are "further instructions" and must not complete
+		res.hostCancel = hostCancelled
+		if v := L.GetGlobal("AFTER"); v != lua.LNil {
+			res.afterEffect = "global AFTER = " + v.String()
+		} else if tb, ok := L.GetGlobal("T").(*lua.LTable); ok {
+			if v := tb.RawGetString("hit"); v != lua.LNil {
+				res.afterEffect = "T.hit = " + v.String()
+			} else if v := tb.RawGetInt(1); v != lua.LNil {
+				res.afterEffect = "T[1] = " + v.String()
+			}
 		}
 	}
 	if probe && ctx != nil && ctx.Context.Err() != nil && o.GoPanic == nil && mode == "" {
@@ -396,6 +430,9 @@ func checkCancelled(ref, got *runResult, depth int) string {
 	}
 	if got.probeBad != "" {
 		return got.probeBad
+	}
+	if got.afterEffect != "" {
+		return "a store behind the point where the context became done took effect: " + got.afterEffect
 	}
 	bound := 4 * (depth + 2)
 	if after := got.polls - got.cancelledAt; after > bound {
@@ -478,6 +515,9 @@ func runProgram(c *fw.Ctx, pi int, p1 int, onlyK int, count bool, mode string) {
 		v := checkCancelled(ref, got, p.depth)
 		if count {
 			c.Count("cancel_runs", 1)
+			if got.hostCancel {
+				c.Count("runs_ended_by_the_scripts_own_cancel_call_with_stores_behind_it_audited", 1)
+			}
 			if got.cancelledAt > 0 {
 				c.Count("cancel_struck_while_running", 1)
 				c.Count(fmt.Sprintf("polls_after_cancel_%d", minInt(got.polls-got.cancelledAt, 9)), 1)
